@@ -5,15 +5,15 @@ props = {l['id']: l for l in map(json.loads, open('/verif/properties.jsonl'))}
 
 # property -> (technique, level text, level note, design ref)
 claimed = {
- 'C03': ("contract-based deductive verification: loop-invariant proof that CreateInBatches tiles the slice into consecutive, in-range, full batches (ghost cursor), each run on the block's connection, SMT-discharged",
-         "Proof of lemma L3 of DESIGN 4/C03 for all slice lengths and batch sizes > 0: every row is in exactly one batch, in order, no batch larger than requested. The field-kind round trip itself (reflection setters/valuers, scanners, SQL engine) is outside the verifier's reach and NOT claimed.",
-         "batchSize > 0 (API precondition, assumed); reflection value conversion, scan.go, the SQL engine; key back-fill (L2) and rectangular VALUES (L1) not yet under contract", "4/C03"),
- 'C10': ("contract-based deductive verification (narrow): site obligations that the column-update methods execute with hooks skipped, K3 writers sweep that Statement.SkipHooks is only set by the derivation functions, SMT-discharged",
-         "Proof of one sentence of the property only: UpdateColumn/UpdateColumns run the update pipeline with SkipHooks set (so no hook and no tracked-time refresh, which ConvertToAssignments gates on !SkipHooks). The permission lemma on SelectAndOmitColumns and the select/omit sweeps over ConvertToAssignments are written but do not discharge within the solver budget; they are listed as undischarged, not claimed.",
-         "everything else in the property: Select/Omit narrowing, permission tags, Save - NOT decided (contracts written, undischarged)", "4/C10"),
- 'C11': ("contract-based deductive verification: full K1 contract (quantified loop invariants, bounds safety) of schema.ToQueryValues; injectivity of the identity key decided by a bounded stand-in on the real utils.ToStringKey",
-         "Proof, for all inputs, that the IN-list handed to the child query holds exactly the parents' key values row by row (single and composite keys). That different key tuples get different identity-map keys is string reasoning outside the verifier's reach: checked exhaustively on the real ToStringKey for all tuples of arity <= 2 (quick) / 3 (thorough) over an adversarial alphabet, labelled bounded.",
-         "Find returns exactly the rows matching the IN list; reflection (field.ValueOf); preload's assignment loop and GetIdentityFieldValuesMap not yet under contract", "4/C11"),
+ 'C03': ("contract-based deductive verification: loop-invariant proof that CreateInBatches tiles the slice (ghost cursor), site obligations that every VALUES cell of a struct/slice Create is the record's own current reading of the field or its declared default (ghost: last ValueOf result, record written since), postcondition that a pooled scan holder gets a new serializer instance after each successful Scan, SMT-discharged",
+         "Proof, for all slice lengths and batch sizes > 0, that every row is in exactly one batch, in order (L3); proof that ConvertToCreateValues binds to each column what field.ValueOf reads from the record after the last write to it (so the stored value is the in-memory value), and that the serializer-aware setter never leaves the instance handed to a record in the pooled holder. The per-kind conversions themselves (reflection setters/valuers, scanners, SQL engine) are outside the verifier's reach and NOT claimed.",
+         'batchSize > 0 (API precondition, assumed); reflect.New/Value.Interface contracts (trusted); reflection value conversion, scan.go, the SQL engine; key back-fill (L2) not under contract', "4/C03"),
+ 'C10': ('contract-based deductive verification: quantified (map visited-set) loop-invariant proof of the permission lemma on Statement.SelectAndOmitColumns; site sweeps over ConvertToAssignments (a field is assigned only if selected, or unrestricted, or a tracked update time on a hook-running update; tracked times only with hooks) and ConvertMapToValuesForCreate (the stored column name is the key that was admitted); column-update methods run with hooks skipped; K3 writers sweeps (SkipHooks, parsed Field attributes); ownership analysis of the select map, SMT-discharged',
+         'Proof that every field whose tag denies create/update permission is mapped to false by SelectAndOmitColumns (for all schemas and Select/Omit lists), that the update value converter writes a column only when that map (or the unrestricted/tracked-time rule) admits it, that Create-from-map checks the very column name it stores, and that UpdateColumn/UpdateColumns never refresh tracked times.',
+         "Save and upsert paths, ConvertToCreateValues' column selection and ConvertSliceOfMapToValuesForCreate are not swept; the database applies the SET list as written", "4/C10"),
+ 'C11': ("contract-based deductive verification: full K1 contract of schema.ToQueryValues; ghost-protocol loop invariants on schema.GetIdentityFieldValuesMap (a parent is keyed exactly when some key part is non-zero) and on callbacks.preload (every parent's relation field is reset once before rows are assigned); injectivity of the identity key decided by a bounded stand-in on the real utils.ToStringKey",
+         "Proof, for all inputs, that the IN-list handed to the child query holds exactly the parents' key values row by row, that no parent with a non-zero key part is left out of the identity map and none with an all-zero key is keyed, and that preload clears every parent's relation before attaching children (so a parent without match ends up empty). That different key tuples get different identity-map keys is string reasoning outside the verifier's reach: checked exhaustively on the real ToStringKey for all tuples of arity <= 2 (quick) / 3 (thorough), labelled bounded.",
+         "Find returns exactly the rows matching the IN list; reflection (field.ValueOf/Set); the assignment loop's lookup by key; Joins and Association().Find paths not under contract", "4/C11"),
  'C04': ("contract-based deductive verification: ghost-state protocol contracts on DB.Transaction (panic edges, defers), Commit, Rollback, Session over go/ssa, SMT-discharged",
          "Proof of the block-runner protocol: on every normal and panic exit of the real DB.Transaction exactly one of Commit/Rollback (outer) or RollbackTo the same save point (nested) happens as the property demands; Commit/Rollback delegate at most once to the driver transaction and record its error; Session keeps a transaction-bound pool transaction-bound. database/sql atomicity and connection return are assumed.",
          "database/sql makes Commit/Rollback atomic and returns the connection; only fc may panic; dialect SavePoint/RollbackTo do what they say; Begin's body is not yet under contract", "4/C04"),
@@ -38,18 +38,18 @@ claimed = {
  'C13': ("contract-based deductive verification: loop invariants on callMethod (one hook call per element, CurDestIndex tracks the element), ghost-protocol contracts on the hook closures (every hook error reaches AddError), site obligations (hooks only without pending error and without SkipHooks; Save's upsert fallback skips hooks), derivations keep SkipHooks, SMT-discharged",
          "Proof of the dispatch lemmas of DESIGN 4/C13 on the real callbacks; the pipeline order and that hooks run on the operation's transaction rest on C05/C17 lemmas.",
          "schema.Parse sets the hook flags from the method set; hooks do not reassign the handle's Statement or CurDestIndex (K3 writers sweep proves no /repo function other than the listed ones does)", "4/C13"),
- 'C14': ("contract-based deductive verification: ghost lock-state contracts on PreparedStmtDB.prepare/ExecContext/QueryContext/Reset/Close and PreparedStmtTX (map access only under the mutex, no blocking call while it is held, mutex free at every return, in-progress entry closed exactly once, failed preparation evicted and reported, usable entries reused, every cached entry handed to a closer that waits for its preparation), SMT-discharged",
-         "Proof of the per-function premises of the monitor argument (DESIGN 4/C14) with interference (arbitrary shared-state change) at every lock acquisition and blocking point. The composition over schedules (deadlock freedom, at-most-one prepare per text) is a paper argument and NOT decided.",
-         "goroutine interleaving semantics; fairness; database/sql; finding F11 (Reset through a session handle leaves closed statements in the shared map) is not expressible yet and is recorded in DESIGN.md only", "4/C14"),
+ 'C14': ('contract-based deductive verification: ghost lock-state contracts on PreparedStmtDB.prepare/ExecContext/QueryContext/Reset/Close and PreparedStmtTX (map access only under the mutex, no blocking call while it is held, mutex free at every return, in-progress entry closed exactly once, failed preparation evicted and reported, usable entries reused, every cached entry handed to a closer that waits for its preparation, Reset empties the shared map in place), SMT-discharged',
+         'Proof of the per-function premises of the monitor argument (DESIGN 4/C14) with interference (arbitrary shared-state change) at every lock acquisition and blocking point. The composition over schedules (deadlock freedom, at-most-one prepare per text) is a paper argument and NOT decided.',
+         'goroutine interleaving semantics; fairness; database/sql', "4/C14"),
  'C17': ("contract-based deductive verification: full K1 proof of getRIndex (with bounds safety); the ordering algorithm sortCallbacks is covered by a bounded stand-in on the real Register/Before/After/Replace/Remove",
          "Proof that getRIndex returns the last index of a name or -1 (every ordering decision rests on it). The ordering property itself is NOT proved: it is checked exhaustively for all registration sequences up to length 2 (quick) / 3 (thorough) on the real code, labelled bounded.",
          "sortCallbacks' recursive rewriting is outside the verifier's reach (DESIGN 4/C17)", "4/C17"),
- 'C15': ("contract-based deductive verification: functional contract of clause.Limit.MergeClause (merge rules of the property) over go/ssa, SMT-discharged",
-         "Proof, for all inputs, that later positive Limit/Offset values override and negative values cancel, as the property states.",
-         "SQL engine semantics of LIMIT/OFFSET; other read paths not yet under contract", "4/C15"),
- 'C16': ("contract-based deductive verification: value-preservation contract of Statement.clone (chain state incl. Attrs/Assign survives Session/WithContext), SMT-discharged",
-         "Proof that every derivation (Session, WithContext, chain methods) carries the whole chain state - conditions, selects, attrs, assigns - to the derived statement, which is the part of the property that 'does not depend on a Session or WithContext call'. Save/upsert/FirstOrCreate decision structure not yet under contract.",
-         "database upsert semantics; Save/FirstOrCreate bodies", "4/C16"),
+ 'C15': ("contract-based deductive verification: functional contract of clause.Limit.MergeClause; nonlinear loop-invariant proof on DB.FindInBatches (every batch query asks for between 1 and the requested number of rows; only full batches precede a shortened last one); the equality with Find's rows decided by a bounded differential stand-in on SQLite",
+         "Proof, for all inputs, that later positive Limit/Offset values override and negative values cancel, and that FindInBatches never issues a batch query for 0, a negative or more than the requested number of rows, for all batch sizes, limits and row counts (assuming the database returns at most LIMIT rows). That the batches together are exactly Find's rows is a statement about the database: checked exhaustively on SQLite for all table sizes, batch sizes, limits and offsets up to 4 (quick) / 6 (thorough), labelled bounded (it found F9, fixed).",
+         'the database returns at most LIMIT rows and the callback does not touch the query handle (assume-after clauses, listed in the evidence); Count/First/Last/Pluck/Rows agreement not under contract', "4/C15"),
+ 'C16': ('contract-based deductive verification: value-preservation contract of Statement.clone (chain state incl. Attrs/Assign survives Session/WithContext; every clause copied, by visited-set invariant); ghost-protocol contracts on FirstOrCreate (at most one write) and FirstOrInit (no write); site obligations (both look up one row in primary-key order; Save inserts only through ON CONFLICT UPDATE ALL), SMT-discharged',
+         "Proof that every derivation carries the whole chain state to the derived statement, that FirstOrInit never calls Create/Updates, FirstOrCreate calls at most one of them once, both search with LIMIT 1 ordered by primary key, and Save's insert path is the all-fields upsert.",
+         'database upsert semantics; which branch the found/not-found result selects is read from RowsAffected/Error as reported by the query', "4/C16"),
  'C18': ("contract-based deductive verification: site obligations at every driver call (callbacks, Begin, Connection, prepared-statement wrappers) that the context argument is the statement's/caller's context + derivation contracts (clone/getInstance/Session), SMT-discharged",
          "Proof that every ExecContext/QueryContext/QueryRowContext/PrepareContext/StmtContext/BeginTx/Conn call in /repo passes the context of the handle the operation started from, and that every derivation keeps or deliberately replaces that context.",
          "database/sql honours cancellation; internal sessions of preload/associations not yet swept", "4/C18"),
